@@ -54,8 +54,14 @@ def main():
     with ThreadPoolExecutor(max_workers=14) as ex:
         for seed, out in ex.map(one, seeds):
             res[seed] = out
-    json.dump(res, open(os.path.join(VERIF, 'selftest', 'CROSS_MATRIX.json'),
-                        'w'), indent=1, sort_keys=True)
+    path = os.path.join(VERIF, 'selftest', 'CROSS_MATRIX.json')
+    if len(sys.argv) > 1 and os.path.exists(path):
+        # a subset was re-run: merge it into the stored matrix
+        old = json.load(open(path))
+        old.update(res)
+        res = dict((k, v) for k, v in old.items() if os.path.isdir(
+            os.path.join(VERIF, 'seeded', k)))
+    json.dump(res, open(path, 'w'), indent=1, sort_keys=True)
     missed = [s for s, o in res.items() if o['applies']
               and o['target'] not in o['alarms']]
     print('%d seeds; own check silent on: %s' % (len(res), missed))
